@@ -1047,3 +1047,8 @@ def run(chk):
     chk.guard("R16.9", "desc-type", check_desc_type, chk, F)
     chk.guard("R16.10", "spk-search", check_spk_search, chk, F)
     chk.guard("R16.11", "bip67", check_bip67, chk, F)
+    # the scripts of pkh-style fragments commit to the HASH160 of the key in its own serialization (shared with C04)
+    from . import c04
+    from ..report import RuleAlias
+    chk.guard("R16.12", "key-pushes", c04.check_key_pushes, RuleAlias(chk, {"R04.6": "R16.12"}, "what a key / key-hash push "
+              "in a script commits to"), F)
